@@ -187,7 +187,8 @@ class Ctx:
             rounds += 1
             if rounds > 200:
                 raise Infra("replay of %s under %s restarted more than 200 times" % (trace_file, label))
-            outp = os.path.join(self.scratch, "res-%s-%d.ndjson" % (_safe(label), start))
+            self._nres = getattr(self, "_nres", 0) + 1
+            outp = os.path.join(self.scratch, "res-%s-%d-%d.ndjson" % (_safe(label), self._nres, start))
             prog = outp + ".prog"
             cmd = [binp, "-in", trace_file, "-out", outp, "-progress", prog, "-wrap", cfg.get("wrap", "native"),
                    "-cfg", label, "-from", str(start)] + list(extra_args)
@@ -291,7 +292,7 @@ class Ctx:
             return None
         return out
 
-    def validate(self, module, event_file, fam, shards=4, timeout=1800, constants=None, guard=True, label="default"):
+    def validate(self, module, event_file, fam, shards=4, timeout=1800, constants=None, guard=True, label="default", heap="2g"):
         """Validate recorded events against spec/trace/<module>.tla (POSTCONDITION TraceAccepted)."""
         if event_file is None:
             return
@@ -340,7 +341,7 @@ class Ctx:
             i, ts, fpath = job
             c = dict(constants or {})
             c["TraceFile"] = tla_str(fpath)
-            st = self.tlc(module, c, spec="TraceSpec", postcondition="TraceAccepted", workers=1, timeout=timeout,
+            st = self.tlc(module, c, spec="TraceSpec", postcondition="TraceAccepted", workers=1, timeout=timeout, heap=heap,
                           name="%s_%s_%s" % (module, _safe(label), "guard" if i < 0 else str(i)), allow_fail=True)
             return job, st
         with concurrent.futures.ThreadPoolExecutor(max_workers=min(len(jobs), NCPU)) as ex:
